@@ -33,7 +33,7 @@ def ws_facts(sc):
 
 def _run(fields):
     return {"harness": "hws", "driver": "wsdrv", "fields": fields, "corpus": "ws",
-            "quick": {"n": 320, "shards": 16, "timeout": 400}, "thorough": {"n": 1500, "shards": 32, "timeout": 3000}}
+            "quick": {"n": 320, "shards": 16, "timeout": 1500}, "thorough": {"n": 1500, "shards": 32, "timeout": 3000}}
 
 
 COMMON_ASSUME = [
@@ -43,6 +43,13 @@ COMMON_ASSUME = [
     "poller-driven mode with an executor that runs jobs inline and refuses them once the conn is closed (nbio.Conn.Execute's contract); "
     "the engine's 'close on Parse error' glue is part of the harness",
     "mask keys drawn by the writer (math/rand) are inputs of the model, read off the wire",
+    "echoed inputs: the deflate output and the inflate output/read script of every compressed message are taken from the implementation "
+    "(annotations defl=/infl=); the codec law readAll(inflate(deflate x)) = x is evaluated by the model on those tables for every "
+    "compressed W op (field codec=) and the Go twin inflates independently (RFC 7692 7.2.2) for every compressed message of a receive stream",
+    "per-op environments (keys=/infl= of one line) are restrictions of one environment: mask keys are indexed by the global frame counter "
+    "and inflate results by message content",
+    "Engine.MaxWebsocketFramePayloadSize > 0 (nbhttp.NewEngine replaces values <= 0 by 32 KiB); the model's fragmentation loop has no "
+    "meaning for 0 (the Go loop would not terminate)",
 ]
 
 PROPS = {
@@ -54,12 +61,15 @@ PROPS = {
                     "bytewise definition and is an involution. Tied to the code by differential execution of two real Conns back to back "
                     "(and of Parse on generated frame streams) against the compiled model, plus received==sent and maskXOR oracles on the "
                     "implementation alone",
-            "note": "model fidelity is sampled on every run; compress/flate is a parameter with the round-trip law as hypothesis; the "
+            "note": "model fidelity is sampled on every run; compress/flate is a parameter with the round-trip law as hypothesis (MsgOK.codec, "
+                    "evaluated on the observed tables per compressed message); text payloads are restricted to valid UTF-8 (invalid text is refused: "
+                    "c12_invalid_text_not_delivered) and ReadLimit is 0 in c12_roundtrip; the theorem is over the driver's appWrite sequence; the "
+                    "upgrade hand-off (101 response and first frames in one read) is covered by the correspondence and an oracle, not by a theorem; the "
                     "little-endian word load/xor/store = bytewise xor step of maskXOR is trusted and checked by the c12-mask oracle (all lengths 0..300)",
             "technique": "Lean 4 proof (induction over frame and segment lists) + differential correspondence"},
         "lean": ["NbioVerif.Properties.C12"], "drivers": ["wsdrv"], "harness": ["hws"],
         "facts": [ws_facts],
-        "runs": [_run(["werr", "wire", "recv", "rerr", "back", "berr", "err"])],
+        "runs": [_run(["werr", "wire", "recv", "rerr", "back", "berr", "err", "codec"])],
         "oracles": ["c12-"],  # c12-roundtrip, c12-mask, c12-trunc
         "rule": "case = message program on two back-to-back conns (role, compression level, frame limit, message limit, segmentation style) or a "
                 "frame stream fed to Parse, or a maskXOR sweep; distinct by hash of (configuration class, per-op outcome classes); non-trivial iff "
@@ -73,11 +83,14 @@ PROPS = {
                     "proved as the only deviation); validFrame and validCloseCode tables regenerated from the code on every run and proved equal "
                     "to the RFC predicates. Tied to the code by differential execution of Parse on frame streams over the full header space and by "
                     "a Go twin of the RFC predicate evaluated on the implementation alone (and compared with the Lean one on every case)",
-            "note": "model fidelity is sampled; utf8.Valid = the Lean definition is compared on every case through the twin line",
+            "note": "model fidelity is sampled; the specification (Model/Rfc6455.lean) imports nothing of the model: decoder, byte order, unmasking, "
+                    "RFC 3629 UTF-8 and close-code classes are written independently and proved equal to the model's helpers (c13_spec_helpers, "
+                    "c13_closeCode_rfc); inflation is a parameter of the specification tied to the endpoint's decompressor by the hypothesis InflAgrees; "
+                    "masking direction: known finding (c13_mask_counterexample, c13_partial, c13_masked)",
             "technique": "Lean 4 proof (decoder agreement + induction over the frame list, decide over regenerated tables) + differential correspondence"},
         "lean": ["NbioVerif.Properties.C13"], "drivers": ["wsdrv"], "harness": ["hws"],
         "facts": [ws_facts],
-        "runs": [_run(["err", "rfc", "len", "exp", "rerr", "berr", "recv", "back"])],
+        "runs": [_run(["err", "rfc", "len", "may", "exp", "rerr", "berr", "recv", "back"])],
         "oracles": ["c13-"],
         "rule": "same streams as C12; distinct by hash of (role, compression, limits, per-Parse outcome, RFC verdict); non-trivial iff a frame was "
                 "completed or refused",
@@ -88,15 +101,19 @@ PROPS = {
     "C15": {
         "manifest": {
             "text": "Lean theorems: in every reachable state of the Parse model the message under assembly is within MessageLengthLimit, every "
-                    "delivered message is, readAll never keeps more than the limit and ends on every lawful reader script, an oversized frame, "
+                    "delivered message is, the inflate buffer never holds more than the limit whatever the outcome, an oversized frame, "
                     "fragment sum or inflated size is refused with a 1009 close frame, control payloads over 125 are refused by WriteMessage and "
-                    "nextFrame, the unparsed cache stays within max(ReadLimit, one read). Tied to the code by differential execution (cache and "
+                    "nextFrame, the unparsed cache stays below 14 + max(125, limit - assembled) while the conn lives and within max(ReadLimit, one read) "
+                    "(c15_cache_bound_partial; the statement's 'never exceeds the read limit' is a known finding with c15_cache_bound_counterexample). Tied to the code by differential execution (cache and "
                     "assembly lengths compared after every Parse call) and limit oracles on the implementation alone (bombs, limit-1/limit/limit+1)",
-            "note": "model fidelity is sampled; allocator capacities and reader chunking are inputs",
+            "note": "model fidelity is sampled; allocator capacities and reader chunking are inputs (bytes requested from the allocator are not "
+                    "compared); termination of readAll is not a theorem: the loop is structurally recursive on the observed Read results, a "
+                    "no-progress Read is outside the reader contract (stuck) and a spinning implementation is caught by the hang oracle; "
+                    "read-limit clause proved as partial (known finding ws-readlimit-first-read)",
             "technique": "Lean 4 proof (invariant by induction over the frame loop and the segment list) + differential correspondence"},
         "lean": ["NbioVerif.Properties.C15"], "drivers": ["wsdrv"], "harness": ["hws"],
         "facts": [ws_facts],
-        "runs": [_run(["err", "cache", "msglen", "werr", "rerr", "berr"])],
+        "runs": [_run(["err", "cache", "msglen", "werr", "rerr", "berr", "rcache", "rmsglen"])],
         "oracles": ["c15-"],
         "rule": "same streams as C12; non-trivial iff bytes were retained across calls, a limit was configured and approached, or a message was refused",
         "assumptions": COMMON_ASSUME + ["one byte beyond the limit may be read from the inflater to tell 'exactly the limit' from 'more' (it is never buffered)"],
